@@ -48,12 +48,19 @@ def export_ir(pkgs):
     key = repo_hash(pkgs)
     out = os.path.join(CACHE, key + '.json')
     if os.path.exists(out):
+        try:
+            os.utime(out)          # in use: keep it out of reach of a concurrent run's pruning
+        except OSError:
+            pass
         return out, None
-    # drop stale cache entries (disk is limited)
+    # drop stale cache entries (disk is limited); concurrent runs may prune the same file
     for f in os.listdir(CACHE):
         fp = os.path.join(CACHE, f)
-        if f.endswith('.json') and time.time() - os.path.getmtime(fp) > 1800:
-            os.unlink(fp)
+        try:
+            if f.endswith('.json') and time.time() - os.path.getmtime(fp) > 1800:
+                os.unlink(fp)
+        except OSError:
+            pass
     tmp = out + '.tmp%d' % os.getpid()
     p = subprocess.run([exp, '-dir', REPO, '-o', tmp] + list(pkgs), capture_output=True, text=True, env=GOENV)
     if p.returncode != 0:
@@ -184,6 +191,10 @@ def main(argv):
             fr = {'function': shown_key, 'file': prog.funcs[key].get('pos', ''), 'obligations': len(V.obls), 'status': 'generated'}
             funcs_report.append(fr)
             for ob in V.obls:
+                if ob.kind == 'complete':
+                    # structural obligations (a loop is left only through its head) belong to every check of the function
+                    tasks.append((key, ob, obligation_smt2(V, ob), 'obl'))
+                    continue
                 if only is not None and not any(ob.kind == k or ob.kind.startswith(k + '.') for k in only):
                     outside.append(ob.name)
                     continue
